@@ -1,0 +1,74 @@
+//go:build verif
+
+package simd
+
+// Verification hooks (add-only, compiled only with -tags verif).
+//
+// Thin exported wrappers around the unexported pure-Go ("generic") code paths,
+// so that the verification harness can drive them directly even on a CPU where
+// the public entry points dispatch to the AVX2 assembly.  No logic lives here.
+
+// VerifMemchrGeneric calls memchrGeneric.
+func VerifMemchrGeneric(haystack []byte, needle byte) int {
+	return memchrGeneric(haystack, needle)
+}
+
+// VerifMemchr2Generic calls memchr2Generic.
+func VerifMemchr2Generic(haystack []byte, needle1, needle2 byte) int {
+	return memchr2Generic(haystack, needle1, needle2)
+}
+
+// VerifMemchr3Generic calls memchr3Generic.
+func VerifMemchr3Generic(haystack []byte, needle1, needle2, needle3 byte) int {
+	return memchr3Generic(haystack, needle1, needle2, needle3)
+}
+
+// VerifMemchrPairGeneric calls memchrPairGeneric.
+func VerifMemchrPairGeneric(haystack []byte, byte1, byte2 byte, offset int) int {
+	return memchrPairGeneric(haystack, byte1, byte2, offset)
+}
+
+// VerifMemchrDigitGeneric calls memchrDigitGeneric.
+func VerifMemchrDigitGeneric(haystack []byte) int {
+	return memchrDigitGeneric(haystack)
+}
+
+// VerifMemchrWordGeneric calls memchrWordGeneric.
+func VerifMemchrWordGeneric(haystack []byte) int {
+	return memchrWordGeneric(haystack)
+}
+
+// VerifMemchrNotWordGeneric calls memchrNotWordGeneric.
+func VerifMemchrNotWordGeneric(haystack []byte) int {
+	return memchrNotWordGeneric(haystack)
+}
+
+// VerifMemchrInTableGeneric calls memchrInTableGeneric.
+func VerifMemchrInTableGeneric(haystack []byte, table *[256]bool) int {
+	return memchrInTableGeneric(haystack, table)
+}
+
+// VerifMemchrNotInTableGeneric calls memchrNotInTableGeneric.
+func VerifMemchrNotInTableGeneric(haystack []byte, table *[256]bool) int {
+	return memchrNotInTableGeneric(haystack, table)
+}
+
+// VerifIsASCIIGeneric calls isASCIIGeneric.
+func VerifIsASCIIGeneric(data []byte) bool {
+	return isASCIIGeneric(data)
+}
+
+// VerifMemmemShort calls memmemShort (needle length >= 2 expected, as in Memmem).
+func VerifMemmemShort(haystack, needle []byte) int {
+	return memmemShort(haystack, needle)
+}
+
+// VerifMemmemSingle calls memmemSingle with an explicit rare byte choice.
+func VerifMemmemSingle(haystack, needle []byte, rareByte byte, rareIdx int) int {
+	return memmemSingle(haystack, needle, rareByte, rareIdx)
+}
+
+// VerifMemmemPaired calls memmemPaired with an explicit rare byte pair choice.
+func VerifMemmemPaired(haystack, needle []byte, rareInfo RareByteInfo) int {
+	return memmemPaired(haystack, needle, rareInfo)
+}
